@@ -68,7 +68,7 @@ func (c06) Budget(tier string) runner.Budget {
 
 func (c06) Describe() runner.Description {
 	return runner.Description{
-		Rule:        "each plan: 3..16 blocks, one transaction per block in ~80% of blocks (so the per-transaction statement is judged), value-heavy mix: multi-target transfers that fail part-way, zero/fractional/>18-decimal/negative/huge amounts, fee with insufficient balance, contract create with endowment (succeeding and failing; native and wrapped-Ethereum type 188 form), calls with value into programs that forward value, AUTHCALLs with value through a contract that holds an externally owned account's authorisation (sponsor = origin, often the poor account), revert, burn all gas after moving value, self-destruct to the caller / to themselves, gas limits at and below the intrinsic cost (gas starvation), miner apply/add-stake/refund (stake lock and escrow), heights jumping to escrow release heights. After every block over the closed universe U (harness accounts, fee account, every contract ever created, miner accounts, escrow beneficiaries): sum(after) - sum(before) = + escrow released at this height (read from the escrow entries before the block) - stake locked by accepted apply/add-stake - balance of a contract that self-destructed naming itself; every balance in [0, 2^256); a failed transaction leaves the sum unchanged; an accepted stake refund moves exactly what leaves the miner's recorded stake into the escrow of its release height. Stake-opcode plans (6%): a contract that is the account of a registered validator executes STAKE / UNSTAKE / UNSTAKEALL with seeded operands (whole tokens, fractions, 1 wei, amounts that dismiss the miner), one per block, with jumps to the release heights: balances + recorded stake + escrow of the release heights must stay constant. distinct_nontrivial = distinct (tx kind, status, sum-delta sign) sequences with at least one failed value-moving transaction.",
+		Rule:        "each plan: 3..16 blocks, one transaction per block in ~80% of blocks (so the per-transaction statement is judged), value-heavy mix: multi-target transfers that fail part-way, zero/fractional/>18-decimal/negative/huge amounts (negative also as the transfer value of contract creations and calls), fee with insufficient balance, contract create with endowment (succeeding and failing; native and wrapped-Ethereum type 188 form), calls with value into programs that forward value, AUTHCALLs with value through a contract that holds an externally owned account's authorisation (sponsor = origin, often the poor account), revert, burn all gas after moving value, self-destruct to the caller / to themselves, gas limits at and below the intrinsic cost (gas starvation), miner apply/add-stake/refund (stake lock and escrow), heights jumping to escrow release heights. After every block over the closed universe U (harness accounts, fee account, every contract ever created, miner accounts, escrow beneficiaries): sum(after) - sum(before) = + escrow released at this height (read from the escrow entries before the block) - stake locked by accepted apply/add-stake - balance of a contract that self-destructed naming itself; every balance in [0, 2^256); a failed transaction leaves the sum unchanged; an accepted stake refund moves exactly what leaves the miner's recorded stake into the escrow of its release height. Stake-opcode plans (6%): a contract that is the account of a registered validator executes STAKE / UNSTAKE / UNSTAKEALL with seeded operands (whole tokens, fractions, 1 wei, amounts that dismiss the miner), one per block, with jumps to the release heights: balances + recorded stake + escrow of the release heights must stay constant. distinct_nontrivial = distinct (tx kind, status, sum-delta sign) sequences with at least one failed value-moving transaction.",
 		Assumptions: []string{"the address universe is closed under the generated transactions (targets, beneficiaries and created contracts are added as they appear)", "block rewards are scheduled into per-height escrow and only enter balances when released; the released amount is read from the escrow, not recomputed"},
 		Real:        []string{"core/vmexecutor", "executor (operator, contract, miner)", "vm (EVM: CALL/CREATE/SELFDESTRUCT with value)", "service (ChangeAssets, fee processing, miner/refund/reward managers)", "storage/account balances in the bound token contract"},
 		Stub:        []string{"ConsensusHelper", "network", "NTP clock"},
@@ -97,6 +97,9 @@ func c06GenTx(r *simrt.Rand, i int) node.TxSpec {
 		s.K = "create"
 		s.Prog = r.Intn(8)
 		s.Value = []string{"0", "1", "3.5", "100000000000", "0.000000000000000001"}[r.Intn(5)]
+		if r.Chance(0.06) {
+			s.Value = "-1" // a negative transfer value in the transaction's JSON payload
+		}
 		s.Gas = []uint64{0, 60000000, 1590000, 1700000, 2500000, 8000000}[r.Intn(6)]
 		s.Eth = r.Chance(0.35)
 	case x < 56:
@@ -114,6 +117,9 @@ func c06GenTx(r *simrt.Rand, i int) node.TxSpec {
 		s.K = "call"
 		s.To = fmt.Sprintf("#%d", r.Intn(6))
 		s.Value = []string{"0", "1", "2.5", "7000", "100000000000", "0.000000000000000001"}[r.Intn(6)]
+		if r.Chance(0.06) {
+			s.Value = []string{"-1", "-0.25"}[r.Intn(2)]
+		}
 		s.Gas = []uint64{0, 629999, 630000, 640000, 700000, 1200000, 6000000}[r.Intn(7)]
 		s.Eth = r.Chance(0.35)
 		if s.Eth && r.Chance(0.15) {
@@ -200,7 +206,7 @@ func (c06) Gen(seed uint64, tier string) json.RawMessage {
 		// an AUTHCALL transaction stands alone in its block, so that what it does to the sum is judged (and
 		// classified) per transaction
 		for _, t := range blk.Txs {
-			if t.K == "authcall" && len(blk.Txs) > 1 {
+			if (t.K == "authcall" || ((t.K == "call" || t.K == "create") && strings.HasPrefix(t.Value, "-"))) && len(blk.Txs) > 1 {
 				blk.Txs = []node.TxSpec{t}
 				break
 			}
@@ -659,6 +665,9 @@ func (c06) Exec(raw json.RawMessage, st *simrt.Stats, log *simrt.Log) *simrt.Vio
 				where = "tx-" + b.Txs[0].K
 				if allFailed {
 					where += "-failed"
+				}
+				if (b.Txs[0].K == "call" || b.Txs[0].K == "create") && strings.HasPrefix(b.Txs[0].Value, "-") {
+					where += "-negative-transfer-value"
 				}
 				if b.Txs[0].K == "authcall" && len(receipts) == 1 && d.Sign() > 0 &&
 					d.Cmp(new(big.Int).Mul(new(big.Int).SetUint64(receipts[0].GasUsed), big.NewInt(1000000000))) == 0 {
